@@ -208,6 +208,54 @@ pub fn c01(opts: &Opts, out: &mut Out) {
             out.case(format!("honest {} rng={:?}", inst.describe(), kind));
         }
     }
+    // degenerate but valid witnesses: commitments that are the identity (value 0, zero mask), zero masks with
+    // non-zero values, equal commitments in two positions, value == promise with a zero mask
+    let mut ndeg = 0usize;
+    for (ci, &(n, m, cap, t)) in [(1usize, 1usize, 1usize, 1usize), (8, 1, 2, 2), (4, 2, 2, 3), (64, 1, 1, 6), (8, 4, 4, 1), (2, 2, 4, 4)].iter().enumerate() {
+        for shape in 0..5usize {
+            let mut inst = fmrun::random_inst(n, m, cap, t, ci + shape, m == 1 && shape % 2 == 0, &mut rng);
+            match shape {
+                0 => {
+                    for j in 0..m {
+                        inst.values[j] = 0;
+                        inst.promises[j] = if j % 2 == 0 { None } else { Some(0) };
+                        inst.blindings[j] = vec![Scalar::ZERO; t];
+                    }
+                },
+                1 => {
+                    let j = m - 1;
+                    inst.values[j] = 0;
+                    inst.promises[j] = None;
+                    inst.blindings[j] = vec![Scalar::ZERO; t];
+                },
+                2 => {
+                    for j in 0..m {
+                        inst.blindings[j] = vec![Scalar::ZERO; t];
+                    }
+                },
+                3 => {
+                    if m >= 2 {
+                        inst.values[1] = inst.values[0];
+                        inst.promises[1] = inst.promises[0];
+                        inst.blindings[1] = inst.blindings[0].clone();
+                    } else {
+                        inst.blindings[0] = vec![Scalar::ONE; t];
+                    }
+                },
+                _ => {
+                    inst.values[0] = 1;
+                    inst.promises[0] = Some(1);
+                    inst.blindings[0] = vec![Scalar::ZERO; t];
+                },
+            }
+            let kind = if shape % 2 == 0 { RngKind::ChaCha(rng.next_u64()) } else { RngKind::Zero };
+            honest_fm(out, "C01", &inst, &kind, true);
+            honest_r(out, "C01", &to_r(&inst), &kind);
+            cfgs.insert((n, m, cap, t, 100 + shape, inst.seed.is_some(), format!("{:?}", std::mem::discriminant(&kind))));
+            ndeg += 1;
+        }
+    }
+    out.stat("degenerate_witnesses", ndeg);
     // the driver's scalar field against curve25519-dalek's `Scalar`, operation by operation (trusted-base validation)
     let specials = [Scalar::ZERO, Scalar::ONE, -Scalar::ONE, Scalar::from(2u8), -Scalar::from(2u8), Scalar::from(u64::MAX)];
     let nf = if opts.thorough { 2000 } else { 200 };
